@@ -67,7 +67,7 @@ Scalars == { VNull, VBool(TRUE), VInt(1), VInt(2), VInt(3), VInt(5), VInt(6), VN
              VNum(2, 0, "exp"), VNum(5, -1, "frac"), VInt(0), VInt(-4),
              VBig("i63max"), VBig("i63ovf"), VBig("x1e400"), VBig("f53"), VBig("i63und"), VBig("x1e30"),
              VStr(<<>>), VStr(a_), VStr(ab_), VStr(abc_), VStr(c_), VStr(date_), VStr(baddate_), VStr(d5_), VStr(<<233>>) }
-Small == { VNull, VInt(1), VInt(2), VNum(20, -1, "frac"), VStr(a_), VStr(ab_) } \cup (IF Thorough THEN { VBool(TRUE), VInt(6) } ELSE {})
+Small == { VNull, VInt(1), VInt(2), VNum(20, -1, "frac"), VStr(a_), VStr(ab_) } \cup (IF Thorough THEN { VBool(TRUE), VInt(6), VStr(c_), VNum(15, -1, "frac") } ELSE {})
 ArrVals == { VArr(<<>>) } \cup { VArr(<<x>>) : x \in Small } \cup { VArr(<<x, y>>) : x, y \in Small }
 ObjVals == { VObj(<<>>) } \cup { VObj(<<KV("a", x)>>) : x \in Small } \cup { VObj(<<KV("c", x)>>) : x \in Small }
            \cup { VObj(<<KV("a", x), KV("b", y)>>) : x, y \in Small }
